@@ -20,6 +20,8 @@ pub const RECURSE_LINE: u64 = 950;
 pub const INSUB_LINE: u64 = 800;
 /// A recursion spread over two lines (the failing GOSUB is not on the line it targets).
 pub const DEEP_LINE: u64 = 960;
+/// A subroutine that runs a loop over I (the variable the callers' loops use).
+pub const FORSUB_LINE: u64 = 850;
 
 fn p(items: Vec<PItem>) -> Stmt {
     Stmt::Print(items)
@@ -166,7 +168,7 @@ pub fn core_menu() -> Vec<(&'static str, T)> {
 
 /// The 8-template loop/subroutine core.
 pub fn loop_menu() -> Vec<(&'static str, T)> {
-    pick(&["PRINT X", "X=X+1", "GOSUB sub", "FOR I=1 TO 2", "NEXT I", "IF X=0 THEN GOSUB sub ELSE PRINT \"NO\"", "RETURN", "IF X THEN last", "GOSUB deep"])
+    pick(&["PRINT X", "X=X+1", "GOSUB sub", "FOR I=1 TO 2", "NEXT I", "IF X=0 THEN GOSUB sub ELSE PRINT \"NO\"", "RETURN", "IF X THEN last", "GOSUB deep", "GOSUB forsub"])
 }
 
 /// Templates that only the feature-cluster menus use.
@@ -204,6 +206,7 @@ fn extra_templates() -> Vec<(&'static str, T)> {
         ("PRINT A(1);A(5)", T::S(p(vec![PItem::E(call("A", vec![num(1.0)])), PItem::Semi, PItem::E(call("A", vec![num(5.0)]))]))),
         ("GOSUB insub", T::S(Stmt::Gosub(INSUB_LINE))),
         ("GOSUB deep", T::S(Stmt::Gosub(DEEP_LINE))),
+        ("GOSUB forsub", T::S(Stmt::Gosub(FORSUB_LINE))),
         ("IF X=0 THEN PRINT 1/0", T::S(Stmt::If(bin(Eq, var("X"), num(0.0)), br(pe(bin(Div, num(1.0), num(0.0)))), None))),
         (
             "INPUT A(INT(RND(1)*3))",
@@ -287,6 +290,7 @@ pub fn layout(seq: &[T], joins: u32) -> ProgramAst {
     let mut uses_sub = false;
     let mut uses_insub = false;
     let mut uses_deep = false;
+    let mut uses_forsub = false;
     for (i, t) in seq.iter().enumerate() {
         let stmt = match t {
             T::S(s) => s.clone(),
@@ -302,6 +306,9 @@ pub fn layout(seq: &[T], joins: u32) -> ProgramAst {
         }
         if refs_line(&stmt, DEEP_LINE) {
             uses_deep = true;
+        }
+        if refs_line(&stmt, FORSUB_LINE) {
+            uses_forsub = true;
         }
         prog.entry(line_of[i]).or_default().push(stmt);
     }
@@ -328,6 +335,18 @@ pub fn layout(seq: &[T], joins: u32) -> ProgramAst {
             ],
         );
         prog.insert(RECURSE_LINE, vec![Stmt::Gosub(RECURSE_LINE)]);
+    }
+    if uses_forsub {
+        prog.insert(840, vec![Stmt::End]);
+        prog.insert(
+            FORSUB_LINE,
+            vec![
+                Stmt::For("I".into(), num(1.0), num(2.0), None),
+                Stmt::Print(vec![PItem::E(st("F")), PItem::Semi]),
+                Stmt::Next("I".into()),
+            ],
+        );
+        prog.insert(FORSUB_LINE + 10, vec![Stmt::Return]);
     }
     if uses_deep {
         prog.insert(955, vec![Stmt::End]);
